@@ -1081,6 +1081,16 @@ def extractPath (t : Ty) (route : List RSeg) (path : Bytes) : Except ExtractErr 
   -- recorded as a shape error so that the function is total
   | _ => .error (.path .shape)
 
+/-- `Path<T>` for a `T` with a flattened part. -/
+def extractPathFlat (outer inner : List (Bytes × FTy)) (route : List RSeg) (path : Bytes) :
+    Except ExtractErr Val :=
+  match lookupVars route path with
+  | .ok vars =>
+    match mapDeFlat outer inner vars with
+    | .ok v => .ok v
+    | .error e => .error (.path e)
+  | _ => .error (.path .shape)
+
 def extractQueryE (t : Ty) (q : Bytes) : Except ExtractErr Val :=
   match extractQuery t q with
   | .ok v => .ok v
